@@ -183,9 +183,32 @@ func (m *MonC01) AfterSlash(s *SlashRecord) {
 	}
 	m.R.Rep.Class("C01.slash")
 	for _, b := range s.Pre.Unb {
+		// entries of one bucket (same delegator and completion time) that the slash reduces together: the
+		// situation in which per-entry and per-bucket rounding differ
+		type grp struct {
+			n          int
+			sum, parts math.Int
+		}
+		g := map[string]*grp{}
 		for _, e := range b.Entries {
 			if e.Val == s.Val {
 				m.R.Rep.Class("C01.slash-with-unbonding")
+				x := g[e.Denom]
+				if x == nil {
+					x = &grp{sum: math.ZeroInt(), parts: math.ZeroInt()}
+					g[e.Denom] = x
+				}
+				x.n++
+				x.sum = x.sum.Add(e.Amount)
+				x.parts = x.parts.Add(s.Fraction.MulInt(e.Amount).TruncateInt())
+			}
+		}
+		for _, x := range g {
+			if x.n >= 2 {
+				m.R.Rep.Class("C01.slash-shared-bucket")
+				if !s.Fraction.MulInt(x.sum).TruncateInt().Equal(x.parts) {
+					m.R.Rep.Class("C01.slash-shared-bucket-fractional")
+				}
 			}
 		}
 	}
@@ -450,6 +473,9 @@ func NewMonC17(r *Runner) *MonC17 { return &MonC17{BaseMon{r}} }
 func (m *MonC17) Name() string    { return "C17" }
 
 func (m *MonC17) AfterTx(o *TxOutcome) {
+	if o.Step.K == "donate" && o.Res.OK && o.Idx <= 1 {
+		m.R.Rep.Class("C17.donate-before-first-use")
+	}
 	if strings.HasPrefix(o.Step.K, "gov_") || strings.HasPrefix(o.Step.K, "legacy_") {
 		if o.Res.OK {
 			m.R.Rep.Class("C17.accepted." + o.Step.K + "." + govClass(o.Step.Gov))
@@ -503,6 +529,11 @@ func (m *MonC17) AfterBlock(o *BlockOutcome) {
 	s := o.Pre
 	cls := fmt.Sprintf("C17.state/unb%v/red%v/flag%v/jailed%v/ivl%s", len(s.Unb) > 0, len(s.Redels) > 0, s.Flag, anyJailed(s), durClass(int64(s.Params.TakeRateClaimInterval)))
 	rep.Class(cls)
+	for _, u := range o.Matured {
+		if u.Amount.IsZero() {
+			rep.Class("C17.matured-zero-entry")
+		}
+	}
 	if !o.EndRes.Failed() {
 		return
 	}
@@ -1039,6 +1070,9 @@ func (m *MonC16) AfterTx(o *TxOutcome) {
 			okS = "panicked"
 		}
 		rep.Class(fmt.Sprintf("C16.%s/%s/%s/%s", k, g.Signer, assetState, okS))
+		if g.Boundary {
+			rep.Class(fmt.Sprintf("C16.boundary/%s/take=%s", k, g.Take))
+		}
 		rep.Eval("C16.gate")
 		if o.Res.OK && !legacy && g.Signer != "auth" {
 			rep.Violate("C16", "C16.gate", o.Idx, "%s succeeded with signer %q (%s), which is not the authority", k, g.Signer, m.R.signer(g, o.Step.A))
